@@ -1,7 +1,7 @@
 (* C10  Cross-transaction (gtxn) contexts: reads are attributed to the right transaction.  Property theorems only.
    Spec/Eval.v gives the concrete meaning of operand trees for a transaction group. *)
 From Coq Require Import List String NArith ZArith.
-From Tealer Require Import Syntax StackAst Keys Eval SingleLemmas.
+From Tealer Require Import LeafPrelude Leaves Syntax StackAst Keys Analysis Domains LeafLemmas Eval Runs Exec SingleLemmas ExecLemmas.
 Import ListNotations.
 
 (* index classification: the reconstructed index tree denotes own index / an absolute index / own+offset *)
@@ -17,5 +17,20 @@ Theorem C10_reads_attributed : forall e fam fld v x t,
   x = field_of e t fld.
 Proof. exact classify_correct. Qed.
 
+(* END TO END for every key family the tool reports (run_all): the Fee of the transaction the key talks about
+   (own transaction at index i / Gtxn[i] / Gtxn[GroupIndex+k]) in an approving execution is below the bound
+   reported for every block on the run.  The at-index family additionally rests on the soundness of the
+   possible-index sets (C06). *)
+Theorem C10_fee_contexts_sound : forall e sem f fuel res fam r t fee cfgs,
+  sem_ok e sem -> env_ok e -> fn_intcs f = e_intcs e -> graph_ok f ->
+  run_all f fuel = Done res -> In (fam, r) (r_fees res) ->
+  key_txn e fam = Some t -> e_field e t "Fee"%string = VInt fee -> (0 <= fee <= MAX_UINT64z)%Z ->
+  fee_leaves_ok f fam ->
+  match fam with KAtIndex _ => fee_leaves_ok f KSelf /\ int_leaves_ok f true /\ int_leaves_ok f false | _ => True end ->
+  Accepts e sem f cfgs ->
+  forall b st, In (b, st) cfgs -> exists v, Analysis.lookup feeval r b = Some v /\ fee_gamma v fee.
+Proof. exact run_all_fee_sound. Qed.
+
 Print Assumptions C10_index_classification.
 Print Assumptions C10_reads_attributed.
+Print Assumptions C10_fee_contexts_sound.
